@@ -287,7 +287,9 @@ impl<'de> Visitor<'de> for ArtifactRuleVisitor {
         V: SeqAccess<'de>,
     {
         let mut len = 0;
-        let typ: &str = seq
+        // an owned string: a borrowed one can only be decoded from
+        // unescaped text held in memory, not from a reader or a JSON tree
+        let typ: String = seq
             .next_element()?
             .ok_or_else(|| de::Error::invalid_length(len, &self))?;
         len += 1;
@@ -297,7 +299,7 @@ impl<'de> Visitor<'de> for ArtifactRuleVisitor {
             .ok_or_else(|| de::Error::invalid_length(len, &self))?;
         len += 1;
 
-        match typ {
+        match &typ[..] {
             "CREATE" => Ok(ArtifactRule::Create(pattern)),
             "DELETE" => Ok(ArtifactRule::Delete(pattern)),
             "MODIFY" => Ok(ArtifactRule::Modify(pattern)),
